@@ -13,7 +13,7 @@ use crate::stubs::*;
 use serde_json::json;
 use std::process::Command;
 
-fn build_cache(seed: u64) -> Cache {
+fn build_cache(seed: u64, class: u64) -> Cache {
     let mut rng = Rng::new(seed);
     let mode = match rng.below(5) {
         0 => HashMode::Const,
@@ -26,8 +26,9 @@ fn build_cache(seed: u64) -> Cache {
     let mut c = if rng.bool() { Cache::with_hasher(limit, hb) } else { Cache::with_capacity_and_hasher(limit, rng.below(20) as usize, hb) };
     // size classes: the usual 10-40 operations, but also caches that end up empty (with capacity),
     // with a single entry, with two, and (rarely) with more than a thousand entries
-    let class = rng.below(16);
-    if class == 0 {
+    // class: 0 = history as drawn, 1 = emptied (capacity kept), 2 = one entry, 3 = two entries,
+    // 5 = more than a thousand entries
+    if class == 5 {
         let n = 1030 + rng.below(200) as u32;
         for k in 0..n {
             let _ = c.insert(SimKey::new(1000 + k, 0), SimVal::new(1));
@@ -67,12 +68,12 @@ fn build_cache(seed: u64) -> Cache {
                 drop(c.drain());
             }
         }
-        2 | 3 => {
+        2 => {
             while c.len() > 1 {
                 c.remove_lru();
             }
         }
-        4 => {
+        3 => {
             while c.len() > 2 {
                 c.remove_mru();
             }
@@ -82,10 +83,20 @@ fn build_cache(seed: u64) -> Cache {
     c
 }
 
-fn reader(c: &Cache, seed: u64, tid: u64, ops: usize) -> u64 {
+fn reader(c: &Cache, seed: u64, tid: u64, ops: usize, class: u64) -> u64 {
     let mut rng = Rng::new(derive(seed, 1900 + tid, 0));
     let mut acc = 0u64;
     let mut probe = SimKey::new(0, 0);
+    if class == 5 {
+        // a big cache: few operations, among them the expensive ones
+        let cl = c.clone();
+        acc += cl.len() as u64;
+        drop(cl);
+        acc += c.iter().rev().map(|(k, _)| k.id.0 as u64).sum::<u64>();
+        acc += c.peek(&KeyId(1000 + tid as u32)).map(|v| v.heap as u64).unwrap_or(7);
+        acc += c.peek_lru().map(|(k, _)| k.id.0 as u64).unwrap_or(1) + c.contains(&KeyId(3)) as u64;
+        return acc;
+    }
     for _ in 0..ops {
         let k = rng.below(18) as u32;
         probe.id = KeyId(k);
@@ -135,13 +146,14 @@ pub fn threads_main(args: &[String]) -> i32 {
     let seed: u64 = args.first().and_then(|s| s.parse().ok()).unwrap_or(1);
     let nthreads: u64 = args.get(1).and_then(|s| s.parse().ok()).unwrap_or(3);
     let ops: usize = args.get(2).and_then(|s| s.parse().ok()).unwrap_or(12);
+    let class: u64 = args.get(3).and_then(|s| s.parse().ok()).unwrap_or(0);
     ctx_disable();
-    let cache = build_cache(seed);
+    let cache = build_cache(seed, class);
     let before = cache.verif_structure();
     let c = &cache;
     let mut total = 0u64;
     std::thread::scope(|s| {
-        let hs: Vec<_> = (0..nthreads).map(|t| s.spawn(move || reader(c, seed, t, ops))).collect();
+        let hs: Vec<_> = (0..nthreads).map(|t| s.spawn(move || reader(c, seed, t, ops, class))).collect();
         for h in hs {
             total = total.wrapping_add(h.join().unwrap_or(0));
         }
@@ -162,13 +174,13 @@ pub struct MiriOutcome {
     pub error: Option<String>,
 }
 
-fn miri_cmd(seed: u64, nthreads: u64, ops: u64, flags: &str) -> Command {
+fn miri_cmd(seed: u64, nthreads: u64, ops: u64, class: u64, flags: &str) -> Command {
     let mut cmd = Command::new("cargo");
     cmd.current_dir(root_dir().join("sim"))
         .env("MIRIFLAGS", flags)
         .env("CARGO_NET_OFFLINE", "true")
         .env_remove("RUSTFLAGS")
-        .args(["+nightly", "miri", "run", "--offline", "-q", "--", "threads", &seed.to_string(), &nthreads.to_string(), &ops.to_string()]);
+        .args(["+nightly", "miri", "run", "--offline", "-q", "--", "threads", &seed.to_string(), &nthreads.to_string(), &ops.to_string(), &class.to_string()]);
     cmd
 }
 
@@ -178,12 +190,12 @@ const BASE_FLAGS: &str = "-Zmiri-disable-stacked-borrows -Zmiri-ignore-leaks -Zm
 pub fn miri_phase(verif_seed: u64, programs: u64, seeds_per: u64, nthreads: u64, ops: u64, parallel: usize) -> MiriOutcome {
     let mut out = MiriOutcome { schedules: 0, programs: 0, violations: Vec::new(), error: None };
     let mut next = 0u64;
-    let mut running: Vec<(u64, std::process::Child, std::path::PathBuf)> = Vec::new();
+    let mut running: Vec<(u64, std::process::Child, std::path::PathBuf, u64, u64)> = Vec::new();
     let tmp = root_dir().join("sim").join("target").join("tmp");
     let _ = std::fs::create_dir_all(&tmp);
     // one warm-up invocation so that parallel ones do not race on the build
     {
-        let mut cmd = miri_cmd(derive(verif_seed, 1900, 0), 1, 1, BASE_FLAGS);
+        let mut cmd = miri_cmd(derive(verif_seed, 1900, 0), 1, 1, 0, BASE_FLAGS);
         match cmd.output() {
             Ok(o) if o.status.success() => {}
             Ok(o) => {
@@ -199,7 +211,12 @@ pub fn miri_phase(verif_seed: u64, programs: u64, seeds_per: u64, nthreads: u64,
     loop {
         while running.len() < parallel && next < programs {
             let pseed = derive(verif_seed, 1900, next + 1);
-            let flags = format!("{} -Zmiri-many-seeds=0..{}", BASE_FLAGS, seeds_per);
+            // the programs cycle through the size classes; the big one gets fewer scheduler seeds
+            // (a cache of more than a thousand entries costs minutes under Miri: two such programs,
+            // one scheduler seed each, and only when many programs are requested, i.e. in the thorough tier)
+            let class = if programs >= 48 && (next == 5 || next == 29) { 5 } else { [0u64, 1, 2, 3, 0, 0][(next % 6) as usize] };
+            let seeds_here = if class == 5 { 1 } else { seeds_per };
+            let flags = format!("{} -Zmiri-many-seeds=0..{}", BASE_FLAGS, seeds_here);
             let errp = tmp.join(format!("miri-{}-{}.err", std::process::id(), next));
             let errf = match std::fs::File::create(&errp) {
                 Ok(f) => f,
@@ -208,10 +225,10 @@ pub fn miri_phase(verif_seed: u64, programs: u64, seeds_per: u64, nthreads: u64,
                     return out;
                 }
             };
-            let mut cmd = miri_cmd(pseed, nthreads, ops, &flags);
+            let mut cmd = miri_cmd(pseed, nthreads, ops, class, &flags);
             cmd.stdout(std::process::Stdio::null()).stderr(errf);
             match cmd.spawn() {
-                Ok(ch) => running.push((pseed, ch, errp)),
+                Ok(ch) => running.push((pseed, ch, errp, class, seeds_here)),
                 Err(e) => {
                     out.error = Some(format!("cannot spawn cargo miri: {}", e));
                     return out;
@@ -226,18 +243,18 @@ pub fn miri_phase(verif_seed: u64, programs: u64, seeds_per: u64, nthreads: u64,
         while i < running.len() {
             match running[i].1.try_wait() {
                 Ok(Some(st)) => {
-                    let (pseed, _, errp) = running.remove(i);
+                    let (pseed, _, errp, class, seeds_here) = running.remove(i);
                     let err = std::fs::read_to_string(&errp).unwrap_or_default();
                     let _ = std::fs::remove_file(&errp);
                     out.programs += 1;
-                    out.schedules += seeds_per;
+                    out.schedules += seeds_here;
                     if !st.success() {
                         if err.contains("Data race detected") || err.contains("Undefined Behavior") {
                             // find the failing miri seed by re-running seeds one at a time
                             let mut found = None;
-                            for ms in 0..seeds_per {
+                            for ms in 0..seeds_here {
                                 let flags = format!("{} -Zmiri-seed={}", BASE_FLAGS, ms);
-                                if let Ok(o) = miri_cmd(pseed, nthreads, ops, &flags).output() {
+                                if let Ok(o) = miri_cmd(pseed, nthreads, ops, class, &flags).output() {
                                     let e2 = String::from_utf8_lossy(&o.stderr).to_string();
                                     if !o.status.success() && (e2.contains("Data race detected") || e2.contains("Undefined Behavior")) {
                                         found = Some((ms, e2));
@@ -249,7 +266,7 @@ pub fn miri_phase(verif_seed: u64, programs: u64, seeds_per: u64, nthreads: u64,
                             let what = text.lines().find(|l| l.contains("Data race detected") || l.contains("Undefined Behavior")).unwrap_or("undefined behaviour").trim().to_string();
                             let class = if what.contains("Data race") { "data-race" } else { "miri-ub" };
                             let path = replay_dir().join(format!("C19-{}-threads-{}.json", verif_seed, pseed));
-                            let v = json!({"property": "C19", "mode": "threads", "violation": class, "program_seed": pseed, "miri_seed": ms, "nthreads": nthreads, "ops": ops, "message": what});
+                            let v = json!({"property": "C19", "mode": "threads", "violation": class, "program_seed": pseed, "miri_seed": ms, "nthreads": nthreads, "ops": ops, "class": class, "message": what});
                             let _ = std::fs::write(&path, serde_json::to_string_pretty(&v).unwrap());
                             out.violations.push(format!("{}|{}|{}", class, what, path.display()));
                         } else if err.contains("THREADS-STRUCTURE-CHANGED") {
@@ -277,9 +294,10 @@ pub fn replay(v: &serde_json::Value, path: &str) -> i32 {
     let ms = v["miri_seed"].as_u64().unwrap_or(0);
     let nthreads = v["nthreads"].as_u64().unwrap_or(3);
     let ops = v["ops"].as_u64().unwrap_or(12);
+    let class = v["class"].as_u64().unwrap_or(0);
     println!("replaying {} (property C19, reader threads under Miri: program seed {}, miri seed {}, {} threads x {} ops)", path, pseed, ms, nthreads, ops);
     let flags = format!("{} -Zmiri-seed={}", BASE_FLAGS, ms);
-    match miri_cmd(pseed, nthreads, ops, &flags).output() {
+    match miri_cmd(pseed, nthreads, ops, class, &flags).output() {
         Ok(o) => {
             let e = String::from_utf8_lossy(&o.stderr).to_string();
             if !o.status.success() && (e.contains("Data race detected") || e.contains("Undefined Behavior")) {
